@@ -353,6 +353,41 @@ pub fn run(tier: Tier) -> i32 {
         }
     }
 
+    // ---- misplaced / repeated fallbacks: the fallback is the LAST branch, and there is one --------------
+    {
+        let mut n_misplaced = 0u64;
+        for ty in [Some(NumTy::I8), Some(NumTy::U8), None, Some(NumTy::F32)] {
+            let tyv = ty.unwrap_or(NumTy::I32);
+            let exact = |x: i128| if tyv.is_float() { vec![CountSpec::Float(format!("{x}.0"))] } else { vec![num_spec(tyv, x)] };
+            let span = vec![CountSpec::Str("1..=2".into())];
+            let mut decls = vec![];
+            for (fi, fbspec) in [vec![], vec![CountSpec::Str("_".into())]].into_iter().enumerate() {
+                for (ai, a) in [exact(0), span.clone()].into_iter().enumerate() {
+                    for (vi, (branches, fb)) in [
+                        (vec![fbspec.clone(), a.clone()], Fb::Absent),
+                        (vec![fbspec.clone(), a.clone()], Fb::Implicit),
+                        (vec![a.clone(), fbspec.clone(), exact(5)], Fb::Absent),
+                        (vec![a.clone(), fbspec.clone(), exact(5)], Fb::Underscore),
+                        (vec![a.clone(), fbspec.clone()], Fb::Implicit),
+                        (vec![a.clone(), fbspec.clone()], Fb::Underscore),
+                        (vec![fbspec.clone()], Fb::Implicit),
+                    ]
+                    .into_iter()
+                    .enumerate()
+                    {
+                        for syntax in [0usize, 0b111] {
+                            decls.push(decl(ty, &format!("{}mf{fi}{ai}{vi}", tyv.name()), &branches, fb, syntax));
+                            n_misplaced += 1;
+                        }
+                    }
+                }
+            }
+            let counts: Vec<Num> = if tyv.is_float() { vec![Num::F(0.0), Num::F(1.5), Num::F(7.0)] } else { vec![Num::I(0), Num::I(1), Num::I(7)] };
+            pack(ty, decls, &counts, &counts, "misplaced-fallback", &mut jobs, &mut singles);
+        }
+        rep.count("misplaced_fallback_declarations", n_misplaced);
+    }
+
     // ---- run ---------------------------------------------------------------------------------------
     let n_packed = jobs.len();
     par_for(jobs.len(), |w, i| {
@@ -394,7 +429,7 @@ pub fn run(tier: Tier) -> i32 {
         rep.sample(json!({"single": p.describe()}));
     }
     let mut cov = serde_json::Map::new();
-    cov.insert("rule".into(), json!("i8/u8: every 1-branch declaration over the spec alphabet (exact number/string, a..b, a..=b, ..b, ..=b, a.., alternatives with |, list alternatives, whitespace) x 4 fallback forms x 3 syntaxes, every ordered 2-branch pair (thorough: 3-branch over a reduced alphabet); each accepted declaration is (1) evaluated from the parsed Range<T> structures for ALL 256 counts, (2) selected at parse time through one `$t(r,{count:n})` key per covered count (all 256 for 1-branch, boundary neighbourhood for 2/3-branch), (3) `{{ count }}` shown; wider ints (+implicit i32) and floats: same alphabets, counts = every value within +-2 (next_up/next_down for floats) of a bound plus type extremes; declarations the model rejects / leaves open and literal counts no branch contains are judged alone (must be Err, never panic); evaluations = (declaration, count) pairs + single projects; distinct_nontrivial = distinct declarations"));
+    cov.insert("rule".into(), json!("i8/u8: every 1-branch declaration over the spec alphabet (exact number/string, a..b, a..=b, ..b, ..=b, a.., alternatives with |, list alternatives, whitespace) x 4 fallback forms x 3 syntaxes, every ordered 2-branch pair (thorough: 3-branch over a reduced alphabet); each accepted declaration is (1) evaluated from the parsed Range<T> structures for ALL 256 counts, (2) selected at parse time through one `$t(r,{count:n})` key per covered count (all 256 for 1-branch, boundary neighbourhood for 2/3-branch), (3) `{{ count }}` shown; wider ints (+implicit i32) and floats: same alphabets, counts = every value within +-2 (next_up/next_down for floats) of a bound plus type extremes; declarations with the fallback before the last branch or written twice (implicit and `_` forms, 4 types); declarations the model rejects / leaves open and literal counts no branch contains are judged alone (must be Err, never panic); evaluations = (declaration, count) pairs + single projects; distinct_nontrivial = distinct declarations"));
     cov.insert("exhaustive".into(), json!(true));
     cov.insert("key_locale_comparisons".into(), json!(*keys_total.lock().unwrap()));
     rep.finish(cov, &["Rust's str::parse::<T> and PartialOrd define what bounds mean", "empty or inverted ranges and fallbacks hidden inside count lists may be rejected or accepted (statement silent)"])
